@@ -51,7 +51,9 @@ func c19GenFile(e *Env) (content string) {
 	var sb strings.Builder
 	no := 0
 	for i := 0; i < n; i++ {
-		switch e.Choose("gen", 8) {
+		switch e.Choose("gen", 9) {
+		case 8:
+			sb.WriteString("\r\n") // empty line of a CRLF log
 		case 0:
 			sb.WriteString("\n") // empty line
 		case 1:
